@@ -115,6 +115,9 @@ func c09CallArgs(o *out, dir, recv, name, coqName, callee string, argIdx int, cl
 		names = append(names, arg)
 		return true
 	})
+	if len(seq) == 0 {
+		o.brokenDef(coqName, "no call to "+callee+" in "+dir+":"+recv+"."+name)
+	}
 	o.f("Definition %s : list Z := [%s]. (* %s:%s.%s : %s(... %s ...) *)\n", coqName, strings.Join(seq, "; "), dir, recv, name, callee, strings.Join(names, ", "))
 }
 
@@ -281,11 +284,13 @@ func init() {
 		o.constString(zs, "TarMemberZip", "tar_member_zip")
 		// members in the order ZipToTar emits them / ReadZipTar expects them: 0 = central directory, 1 = whole zip; each is
 		// read through io.NewSectionReader(r, offset, length) (positioned reads: no shared file offset)
-		c09CallArgs(o, zs, "", "ZipToTar", "ziptotar_members", "tarAddStream", 2, map[string]int{"TarMemberCD": 0, "TarMemberZip": 1})
-		c09CallArgs(o, zs, "", "ZipToTar", "ziptotar_sizes", "tarAddStream", 3, map[string]int{"size - dirLoc": 0, "size": 1})
-		c09CallArgs(o, zs, "", "ZipToTar", "ziptotar_offsets", "io.NewSectionReader", 1, map[string]int{"0": 0, "dirLoc": 1})
-		c09CallArgs(o, zs, "", "ZipToTar", "ziptotar_lengths", "io.NewSectionReader", 2, map[string]int{"size - dirLoc": 0, "size": 1})
-		c09NoCall(o, zs, "", "ZipToTar", "ziptotar_no_seek", "Seek")
+		c09CallArgs(o, zs, "", "ZipToTarTrailer", "ziptotar_members", "tarAddStream", 2, map[string]int{"TarMemberCD": 0, "TarMemberZip": 1})
+		c09CallArgs(o, zs, "", "ZipToTarTrailer", "ziptotar_sizes", "tarAddStream", 3, map[string]int{"size - dirLoc": 0, "size": 1})
+		c09CallArgs(o, zs, "", "ZipToTarTrailer", "ziptotar_offsets", "io.NewSectionReader", 1, map[string]int{"0": 0, "dirLoc": 1})
+		c09CallArgs(o, zs, "", "ZipToTarTrailer", "ziptotar_lengths", "io.NewSectionReader", 2, map[string]int{"size - dirLoc": 0, "size": 1})
+		c09NoCall(o, zs, "", "ZipToTarTrailer", "ziptotar_no_seek", "Seek")
+		// ZipToTar = ZipToTarTrailer with a zero-length trailer (argument class 0 = literal 0)
+		c09CallArgs(o, zs, "", "ZipToTar", "ziptotar_trailer_arg", "ZipToTarTrailer", 2, map[string]int{"0": 0})
 		c09NoCall(o, zs, "", "tarAddStream", "taraddstream_no_seek", "Seek")
 		c09NoCall(o, "signers/macho", "transformer", "send", "macho_send_no_seek", "Seek")
 		c09NoCall(o, "signers/dmg", "transformer", "send", "dmg_send_no_seek", "Seek")
@@ -296,7 +301,7 @@ func init() {
 		o.condOf(funcSpec{dir: zs, recv: "", name: "ReadZipTar", coqName: "readziptar_second_bad", params: "(name : bytes)", retType: "bool",
 			leaves: map[string]string{"hdr.Name": "name", "TarMemberCD": "tar_member_cd", "TarMemberZip": "tar_member_zip", "err != nil": "false"},
 			types:  map[string]string{"hdr.Name": "bytes", "TarMemberCD": "bytes", "TarMemberZip": "bytes", "err != nil": "bool"}}, "if:hdr.Name", 1)
-		for _, fn := range []string{"ZipToTar", "tarAddStream", "ReadZipTar"} {
+		for _, fn := range []string{"ZipToTar", "ZipToTarTrailer", "tarAddStream", "ReadZipTar"} {
 			fingerprint(zs, "", fn)
 		}
 		fingerprint(zs, "zipTarReader", "Read")
